@@ -188,6 +188,15 @@ def _run(env):
         off = len(pk0[2]) - 5
         for j in range(ctx.n(6, 40)):
             mutk = bytearray(kraw); pos = off - rng.randrange(0, min(20, off - 12)); mutk[pos] ^= 1 << rng.randrange(8)
+            # a flip in an MPI bit-count octet that leaves every public integer unchanged is not a change of key material
+            try:
+                mk = pgpy.PGPKey.from_blob(bytes(mutk))[0]
+                same = [int(x) if not hasattr(x, 'x') else (x.x, getattr(x, 'y', None)) for x in mk._key.keymaterial] == \
+                       [int(x) if not hasattr(x, 'x') else (x.x, getattr(x, 'y', None)) for x in pub._key.keymaterial]
+            except Exception:
+                same = False
+            if same:
+                continue
             o = outcome(lambda: bool(pgpy.PGPKey.from_blob(bytes(mutk))[0].verify(b'key material', sg)))
             ctx.case('mut-key', (name, pos))
             if not falsy(o): ctx.fail('mut-key', 'signature verifies under altered key material', {'op': 'mutkey', 'key': name, 'pos': pos})
